@@ -26,19 +26,25 @@ def shapes(tier):
         out.append({'groups': [3], 'frac': f})
         out.append({'groups': [1, 3], 'frac': f, 'grouped': 1})
         out.append({'groups': [2, 3, 3], 'frac': f, 'grouped': 1})
-    out += [dict(s, neg=1) for s in out if sum(s['groups']) in (1, 4, 7)]
+    out += [dict(s, neg=1) for s in out]
     return out
 
 
 def obligations(tier):
     t = 120 if tier == 'quick' else 600
     cult = CULTURES if tier == 'thorough' else ['en-us', 'es-es', 'es-mx', 'fr-fr', 'de-de']
-    sl = [{'culture': c, 'shape': s} for c in cult for s in shapes(tier)]
+    def f13(s):
+        # known-finding region F13: a signed integer with exactly one grouping mark after a three-digit group ("-250,000")
+        return bool(s.get('neg') and s.get('grouped') and s['groups'] == [3, 3] and not s.get('frac'))
+    sl = [{'culture': c, 'shape': s} for c in cult for s in shapes(tier) if not f13(s)]
+    kf = [{'culture': c, 'shape': s} for c in ('en-us', 'fr-fr', 'de-de') for s in shapes(tier) if f13(s)]
     obs = [Ob('O3.2-digital-value', 'sx', 'harness.C03:h_digital_value', twin='harness.C03:t_digital_value', slices=sl, timeout=t,
               descr='_get_digital_value returns exactly the number written (grouping and decimal marks of the culture, optional sign) for every digit assignment',
               bounds='all digit values of each shape (<= 15 digits); quick: 5 cultures, thorough: 8', encodes=[N + 'BaseNumberParser._get_digital_value',
                                                                                                                 N + 'BaseNumberParser.__skip_non_decimal_separator'],
               stubs=['Decimal / getcontext -> exact proxy (harness/symdec.py)', 'numeral text -> SymText/SymChar proxies']),
+           Ob('O3.2-signed-single-group', 'sx', 'harness.C03:h_digital_value', slices=kf, timeout=t, finding='F13',
+              descr='region F13: signed integer with one grouping mark after a three-digit group', encodes=[N + 'BaseNumberParser.__skip_non_decimal_separator']),
            Ob('O3.2v-model-validation', 'fn', 'harness.C03:validate_model', slices=[{'culture': c, 'shape': s} for c in ('en-us', 'es-es', 'fr-fr') for s in shapes('quick')[::3]],
               timeout=t, descr='validation (not a verdict): the real kernel with real Decimals agrees with the written number on random numerals of each shape'),
            Ob('O3.4-format', 'xh', 'harness.C03:h_format', slices=[{'culture': c} for c in (cult if tier == 'thorough' else ['en-us', 'es-es', 'fr-fr'])], timeout=max(t, 240),
